@@ -109,6 +109,38 @@ def names_loaded(node):
     return {n.id for n in ast.walk(node) if isinstance(n, ast.Name) and isinstance(n.ctx, ast.Load)}
 
 
+def free_names(e):
+    """Names an expression reads from its surroundings (names bound by its own comprehensions / lambdas excluded)."""
+    out = set()
+
+    def go(n, bound):
+        if isinstance(n, (ast.ListComp, ast.SetComp, ast.GeneratorExp, ast.DictComp)):
+            b = set(bound)
+            for g in n.generators:
+                go(g.iter, b)
+                b |= {x.id for x in ast.walk(g.target) if isinstance(x, ast.Name)}
+                for i in g.ifs:
+                    go(i, b)
+            if isinstance(n, ast.DictComp):
+                go(n.key, b)
+                go(n.value, b)
+            else:
+                go(n.elt, b)
+            return
+        if isinstance(n, ast.Lambda):
+            b = set(bound) | {a.arg for a in n.args.args + n.args.kwonlyargs + n.args.posonlyargs}
+            go(n.body, b)
+            return
+        if isinstance(n, ast.Name):
+            if isinstance(n.ctx, ast.Load) and n.id not in bound:
+                out.add(n.id)
+            return
+        for c in ast.iter_child_nodes(n):
+            go(c, bound)
+    go(e, set())
+    return out
+
+
 def target_names(t):
     """Names bound by an assignment target (Name / Tuple / List / Starred)."""
     out = []
@@ -214,9 +246,62 @@ def normalise_tree(tree):
             out.append(s)
             i += 1
         return out
+    def pure_default(e):
+        if isinstance(e, ast.Constant):
+            return True
+        if isinstance(e, ast.Name):
+            return True
+        if isinstance(e, ast.UnaryOp) and isinstance(e.op, ast.USub):
+            return pure_default(e.operand)
+        if isinstance(e, (ast.List, ast.Tuple)):
+            return all(pure_default(x) for x in e.elts)
+        if isinstance(e, ast.Dict):
+            return not e.keys
+        return False
+
+    def fold_defaults(body):
+        """`v = D` directly followed by `if c: ...; v = E; ...` (no else; D a constant / name / empty literal; v not read
+        in c nor before its assignment in the branch)  ->  `if c: ... else: v = D`."""
+        out = []
+        i = 0
+        while i < len(body):
+            s = body[i]
+            for field in ('body', 'orelse', 'finalbody'):
+                sub = getattr(s, field, None)
+                if isinstance(sub, list) and sub and isinstance(sub[0], ast.stmt):
+                    setattr(s, field, fold_defaults(sub))
+            for h in getattr(s, 'handlers', []) or []:
+                h.body = fold_defaults(h.body)
+            nxt = body[i + 1] if i + 1 < len(body) else None
+            if isinstance(s, ast.Assign) and len(s.targets) == 1 and isinstance(s.targets[0], ast.Name) and pure_default(s.value) \
+                    and isinstance(nxt, ast.If) and not nxt.orelse:
+                v = s.targets[0].id
+                reads = lambda e: any(isinstance(x, ast.Name) and x.id == v for x in ast.walk(e))
+                ok = not reads(nxt.test) and not (isinstance(s.value, ast.Name) and s.value.id == v)
+                hit = False
+                if ok:
+                    for st in nxt.body:
+                        if isinstance(st, ast.Assign) and len(st.targets) == 1 and isinstance(st.targets[0], ast.Name) and st.targets[0].id == v:
+                            hit = not reads(st.value)
+                            break
+                        if reads(st) or any(isinstance(x, ast.Name) and x.id == v and isinstance(x.ctx, ast.Store) for x in ast.walk(st)):
+                            break
+                # the default's own names must not be re-bound by the branch test (walrus) - names only, so nothing else can interfere
+                if hit and not any(isinstance(x, ast.NamedExpr) for x in ast.walk(nxt.test)):
+                    dflt = ast.copy_location(ast.Assign(targets=s.targets, value=s.value), s)
+                    nxt.orelse = [dflt]
+                    out.append(nxt)
+                    i += 2
+                    continue
+            out.append(s)
+            i += 1
+        return out
     for n in ast.walk(tree):
         if isinstance(n, (ast.FunctionDef, ast.AsyncFunctionDef)):
             n.body = fold_loops(n.body)
+            n.body = fold_defaults(n.body)
+    # the folded conditionals may have a negated test: same orientation rule as above
+    tree = C().visit(tree)
     ast.fix_missing_locations(tree)
     return tree
 
@@ -879,7 +964,7 @@ class Flow:
             return expr
         return self._inline_at(expr, at_nid, depth, set(stop))
 
-    def _inline_at(self, expr, at_nid, depth, stop):
+    def _inline_at(self, expr, at_nid, depth, stop, active=frozenset()):
         flow = self
         import copy as _copy
 
@@ -887,19 +972,33 @@ class Flow:
             def visit_Lambda(self, node):
                 return node
 
+            bound = frozenset()
+
             def visit_ListComp(self, node):
+                # a comprehension is evaluated where its statement stands: free names may be replaced by their definition
+                # unless the comprehension binds them, or binds a name the definition mentions (capture)
+                mine = set()
+                for g in node.generators:
+                    mine |= {x.id for x in ast.walk(g.target) if isinstance(x, ast.Name)}
+                prev = self.bound
+                self.bound = prev | mine
+                self.generic_visit(node)
+                self.bound = prev
                 return node
             visit_SetComp = visit_DictComp = visit_GeneratorExp = visit_ListComp
 
             def visit_Name(self, node):
-                if not isinstance(node.ctx, ast.Load) or depth <= 0 or node.id in stop:
+                if not isinstance(node.ctx, ast.Load) or depth <= 0 or node.id in stop or node.id in self.bound:
                     return node
-                mkey = (node.id, at_nid, frozenset(stop))
+                mkey = (node.id, at_nid, frozenset(stop), active)
                 if mkey in flow._inl_memo:
                     hit = flow._inl_memo[mkey]
-                    return node if hit is None else copy_ast(hit)
-                res = self._visit_Name(node)
-                flow._inl_memo[mkey] = None if res is node else res
+                    res = node if hit is None else copy_ast(hit)
+                else:
+                    res = self._visit_Name(node)
+                    flow._inl_memo[mkey] = None if res is node else res
+                if res is not node and self.bound and (free_names(res) & self.bound):
+                    return node
                 return res
 
             def _visit_Name(self, node):
@@ -924,7 +1023,9 @@ class Flow:
                                 if d2.name in fvs or d2.name == node.id:
                                     return False
                     return True
-                inner = flow._inline_at(d.value, d.node, depth - 1, stop)
+                if id(d) in active:
+                    return node          # a definition that (through a loop) feeds itself: not a temporary
+                inner = flow._inline_at(d.value, d.node, depth - 1, stop, active | {id(d)})
                 if movable(inner):
                     return inner
                 return node
@@ -1019,6 +1120,10 @@ COMMUTATIVE_CALLS = {'np.logaddexp', 'np.minimum', 'np.maximum', 'numpy.logaddex
                      'np.logical_and', 'np.logical_or'}
 
 
+_NEG_CMP = {ast.Eq: ast.NotEq, ast.NotEq: ast.Eq, ast.Lt: ast.GtE, ast.GtE: ast.Lt, ast.Gt: ast.LtE, ast.LtE: ast.Gt,
+            ast.Is: ast.IsNot, ast.IsNot: ast.Is, ast.In: ast.NotIn, ast.NotIn: ast.In}
+
+
 def canon(expr, params=(), rename=None, consts=None):
     """Nested-tuple normal form: + and * flattened and sorted, a-b as a+(-b), commutative
     calls sorted, parameters replaced by their position, other names kept."""
@@ -1051,6 +1156,18 @@ def canon(expr, params=(), rename=None, consts=None):
                 return ('neg', inner)
             if isinstance(e.op, ast.UAdd):
                 return c(e.operand)
+            if isinstance(e.op, ast.Not):
+                o = e.operand
+                # negation normal form: double negation, negated comparison, De Morgan, `not len(x)`
+                if isinstance(o, ast.UnaryOp) and isinstance(o.op, ast.Not):
+                    return c(o.operand)
+                if isinstance(o, ast.Compare) and len(o.ops) == 1 and type(o.ops[0]) in _NEG_CMP:
+                    return c(ast.Compare(left=o.left, ops=[_NEG_CMP[type(o.ops[0])]()], comparators=o.comparators))
+                if isinstance(o, ast.BoolOp):
+                    return c(ast.BoolOp(op=ast.Or() if isinstance(o.op, ast.And) else ast.And(),
+                                        values=[ast.UnaryOp(op=ast.Not(), operand=v) for v in o.values]))
+                if isinstance(o, ast.Call) and dotted(o.func) == 'len' and len(o.args) == 1 and not o.keywords:
+                    return ('cmp', ('Eq',), c(o), ('const', '0'))
             return ('unary', type(e.op).__name__, c(e.operand))
         if isinstance(e, ast.BinOp):
             if isinstance(e.op, ast.Add):
@@ -1068,6 +1185,13 @@ def canon(expr, params=(), rename=None, consts=None):
             if fn and (fn.split('.')[0] in rename or fn.split('.')[0] in params) and fn.split('.')[0] != 'self':
                 fn = None           # method call on a local / parameter: the receiver is a term, not a name
             fn = _FN_ALIAS.get(fn, fn)
+            if isinstance(e.func, ast.Attribute) and e.func.attr == 'reshape' and len(e.args) == 2 and not e.keywords:
+                shp = [a.value if isinstance(a, ast.Constant) else (-a.operand.value if isinstance(a, ast.UnaryOp) and isinstance(a.op, ast.USub) and isinstance(a.operand, ast.Constant) else None) for a in e.args]
+                # column / row view of a vector: x.reshape(-1, 1) is x[:, None], x.reshape(1, -1) is x[None, :]
+                if shp == [-1, 1]:
+                    return ('sub', c(e.func.value), ('tuple', ('slice', None, None, None), ('const', 'None')))
+                if shp == [1, -1]:
+                    return ('sub', c(e.func.value), ('tuple', ('const', 'None'), ('slice', None, None, None)))
             # array methods and their numpy function forms are one idiom: a.min(axis=0) == np.min(a, axis=0)
             if isinstance(e.func, ast.Attribute) and e.func.attr in _ARRAY_METHODS and not (isinstance(e.func.value, ast.Name) and e.func.value.id in ('np', 'numpy', 'torch', 'math')):
                 recv = e.func.value
@@ -1075,6 +1199,16 @@ def canon(expr, params=(), rename=None, consts=None):
                     args = [c(recv)] + [c(a) for a in e.args]
                     kws = tuple(sorted((k.arg or '**', c(k.value)) for k in e.keywords))
                     return ('call', ('fn', 'np.' + e.func.attr), tuple(args), kws)
+            if fn in ('dict', 'list', 'tuple') and not e.args and not e.keywords:
+                return (fn,)
+            if isinstance(e.func, ast.Attribute) and e.func.attr == 'group' and len(e.args) == 1 and not e.keywords \
+                    and isinstance(e.args[0], ast.Constant) and isinstance(e.args[0].value, int) and e.args[0].value >= 1:
+                # match.group(k) is match.groups()[k - 1]
+                return ('sub', ('call', c(ast.Attribute(value=e.func.value, attr='groups', ctx=ast.Load())), (), ()), ('const', repr(e.args[0].value - 1)))
+            if fn == 'dict' and len(e.args) == 1 and not e.keywords and isinstance(e.args[0], (ast.ListComp, ast.GeneratorExp)) \
+                    and isinstance(e.args[0].elt, ast.Tuple) and len(e.args[0].elt.elts) == 2:
+                lc = e.args[0]           # dict([(k, v) for ..]) is the dict comprehension
+                return c(ast.DictComp(key=lc.elt.elts[0], value=lc.elt.elts[1], generators=lc.generators))
             if fn == 'str' and len(e.args) == 1 and not e.keywords:
                 return ('fstr', ('fmt', c(e.args[0]), -1, None))
             if isinstance(e.func, ast.Attribute) and e.func.attr == 'format' and isinstance(e.func.value, ast.Constant) and isinstance(e.func.value.value, str) and not e.keywords:
@@ -1107,10 +1241,29 @@ def canon(expr, params=(), rename=None, consts=None):
         if isinstance(e, ast.List):
             return ('list',) + tuple(c(x) for x in e.elts)
         if isinstance(e, ast.Compare):
+            if len(e.ops) == 1:
+                op, l, r = type(e.ops[0]).__name__, c(e.left), c(e.comparators[0])
+                if op in ('Gt', 'GtE'):                      # one orientation for order comparisons
+                    op, l, r = {'Gt': 'Lt', 'GtE': 'LtE'}[op], r, l
+                is_len = lambda t: isinstance(t, tuple) and len(t) == 4 and t[0] == 'call' and t[1] == ('fn', 'len')
+                # emptiness tests on a length: 0 < len, 1 <= len, len != 0 are one test; len < 1, len <= 0, len == 0 the other
+                if (op == 'Lt' and l == ('const', '0') and is_len(r)) or (op == 'LtE' and l == ('const', '1') and is_len(r)):
+                    op, l, r = 'NotEq', r, ('const', '0')
+                elif (op == 'Lt' and is_len(l) and r == ('const', '1')) or (op == 'LtE' and is_len(l) and r == ('const', '0')):
+                    op, r = 'Eq', ('const', '0')
+                if op in ('Eq', 'NotEq'):
+                    l, r = sorted([l, r], key=repr)
+                return ('cmp', (op,), l, r)
             return ('cmp', tuple(type(o).__name__ for o in e.ops), c(e.left)) + tuple(c(x) for x in e.comparators)
         if isinstance(e, ast.BoolOp):
             return (type(e.op).__name__.lower(),) + tuple(sorted((c(v) for v in e.values), key=repr))
         if isinstance(e, ast.IfExp):
+            t = e.test
+            # `a if not c else b` is `b if c else a` (same orientation rule as for statements)
+            if isinstance(t, ast.UnaryOp) and isinstance(t.op, ast.Not):
+                return c(ast.IfExp(test=t.operand, body=e.orelse, orelse=e.body))
+            if isinstance(t, ast.Compare) and len(t.ops) == 1 and type(t.ops[0]) in (ast.NotEq, ast.IsNot, ast.NotIn):
+                return c(ast.IfExp(test=ast.Compare(left=t.left, ops=[_NEG_CMP[type(t.ops[0])]()], comparators=t.comparators), body=e.orelse, orelse=e.body))
             return ('ifexp', c(e.test), c(e.body), c(e.orelse))
         if isinstance(e, ast.Starred):
             return ('star', c(e.value))
